@@ -214,14 +214,6 @@ theorem evenodd_crossing (p : Polygon α) (pt : Point α)
   unfold Polygon.containsEvenOdd
   rw [beq_iff_eq, evenodd_parity p pt h]
 
-/-- how the polygon-level functions are composed from `Contour.Contains` (definitional: `ContainsEvenOdd` is the parity
-    of the number of containing contours, `Contains` their disjunction); the crossing-number content is
-    `contour_contains_crossing` and `evenodd_crossing` -/
-theorem evenodd_spec (p : Polygon α) (pt : Point α) :
-    (Polygon.containsEvenOdd p pt = true ↔ (p.countP (fun c => Contour.contains c pt)) % 2 = 1) ∧
-    (Polygon.contains p pt = true ↔ ∃ c ∈ p, Contour.contains c pt = true) := by
-  simp [Polygon.containsEvenOdd, Polygon.contains]
-
 end Contours
 
 theorem contour_contains_crossing_rat (c : Contour Rat) (pt : Point Rat)
@@ -237,17 +229,6 @@ theorem bounds_encloses (p : Polygon α) (c : Contour α) (hc : c ∈ p) (v : Po
     v.inRect (Contour.bounds c) = true ∧ v.inRect (Polygon.bounds p) = true := by
   simp only [Rect.inRect_iff]
   exact ⟨contour_bounds_In c v hv, polygon_bounds_In p c hc v hv⟩
-
-/-- "Transform maps every vertex by the matrix": same shape, vertex `i` of contour `j` is the image of the original
-    vertex.  "Without touching the original" is vacuous in a pure model (the operand is a value) and is NOT a theorem:
-    it is checked on the Go side only — the harness compares the operand before and after Transform (also after
-    overwriting the result), and before and after Bounds / Contains / ContainsEvenOdd; `Rect` and `Matrix` operands are
-    Go values passed by copy, so Union/Intersect/Multiply cannot touch them by construction of the language -/
-theorem transform_maps_vertices (p : Polygon α) (m : Matrix α) (j i : Nat) :
-    (Polygon.transform p m).length = p.length ∧
-    ((Polygon.transform p m)[j]?.bind (·[i]?)) = (p[j]?.bind (·[i]?)).map m.transformPoint := by
-  simp only [Polygon.transform, List.length_map, List.getElem?_map, true_and]
-  cases p[j]? <;> simp
 
 end Bounds
 
@@ -469,54 +450,6 @@ theorem bounds_src (maxV minV : α) (widen : α → α → α) (p : Polygon α)
 
 /-- the guard of `extent` (`!(hi < lo+size)`) is dead in exact arithmetic: it exists for float rounding only -/
 theorem extent_guard_dead (widen : α → α → α) (lo hi : α) : extent widen lo hi = 1 + hi - lo := extent_eq widen lo hi
-
-/-- `Transform` composes like the matrices: transforming by the identity changes nothing, transforming by `m` and then
-    by `n` is transforming by `m.Multiply(n)` -/
-theorem transform_compose (p : Polygon α) (m n : Matrix α) :
-    Polygon.transform p Matrix.identity = p ∧
-    Polygon.transform (Polygon.transform p m) n = Polygon.transform p (m.multiply n) := by
-  constructor
-  · simp only [Polygon.transform]
-    have : (fun v : Point α => (Matrix.identity : Matrix α).transformPoint v) = id := by
-      funext v; exact (identity_neutral Matrix.identity v).1
-    simp [this]
-  · simp only [Polygon.transform, List.map_map]
-    congr 1; funext c
-    simp only [Function.comp, List.map_map]
-    congr 1; funext v
-    exact (transform_multiply m n v).symm
-
-/-- a polygon that is `Empty` (no vertex at all) contains nothing, has the zero bounds and is its own transform -/
-theorem empty_polygon (p : Polygon α) (m : Matrix α) (h : Polygon.empty p = true) :
-    Polygon.bounds p = Rect.zero ∧ Polygon.transform p m = p ∧ (∀ c ∈ p, c = []) := by
-  have hall : ∀ c ∈ p, c = [] := by
-    cases p with
-    | nil => simp
-    | cons c cs =>
-      simp only [Polygon.empty, List.all_eq_true, List.isEmpty_iff] at h
-      exact h
-  refine ⟨?_, ?_, hall⟩
-  · cases p with
-    | nil => rfl
-    | cons c cs =>
-      simp only [Polygon.bounds]
-      rw [hall c (List.mem_cons_self ..)]
-      have hcs : ∀ c' ∈ cs, c' = [] := fun c' hc' => hall c' (List.mem_cons_of_mem _ hc')
-      clear hall h
-      induction cs with
-      | nil => rfl
-      | cons d ds ih =>
-        simp only [List.foldl_cons]
-        rw [hcs d (List.mem_cons_self ..)]
-        have : (Contour.bounds ([] : Contour α)).union (Contour.bounds []) = Contour.bounds [] := by
-          simp [Contour.bounds, Rect.union, Rect.zero, Rect.empty]
-        rw [this]
-        exact ih (fun c' hc' => hcs c' (List.mem_cons_of_mem _ hc'))
-  · simp only [Polygon.transform]
-    conv => rhs; rw [← List.map_id p]
-    apply List.map_congr_left
-    intro c hc
-    rw [hall c hc]; rfl
 
 end Bounds2
 
@@ -767,6 +700,45 @@ theorem rotate_sequential_contrast :
       (m.rotate s c).transformPoint p = (Matrix.newRotation s c).transformPoint (m.transformPoint p) := by
   refine ⟨Matrix.newTranslation 1 0, 1, 0, ⟨0, 0⟩, ?_, (transform_rotate _ _ _ _).2⟩
   norm_num [rotateSequential, Matrix.newTranslation, Matrix.newRotation, Matrix.transformPoint]
+
+/-- the guarded branch of `extent` (the only part of `Bounds` that exists for rounding; dead in exact arithmetic by
+    `extent_guard_dead`), as the driver runs it at Lean `Float` in stream `pd`: for ANY `next` (the source's
+    `Nextafter(·, MaxValue)`) it returns the FIRST of the five candidates `s₀ = next hi - lo, next s₀, …, next⁴ s₀` that puts
+    `hi` strictly below `lo + candidate`, and the fifth if none does.  That one of the five always does on finite float64
+    input is NOT proved (it is false for a vertex at `MaxFloat64`: `poly.bounds-double.ops`); it is only run -/
+theorem extent_widen_spec {β : Type} [Add β] [Sub β] [LT β] [DecidableLT β] (next : β → β) (lo hi : β) :
+    ∃ k, k ≤ 4 ∧ widenSrc next lo hi = Nat.iterate next k (next hi - lo) ∧
+      (∀ j, j < k → ¬ hi < lo + Nat.iterate next j (next hi - lo)) ∧
+      (k < 4 → hi < lo + widenSrc next lo hi) := by
+  obtain ⟨k, hk, e, h1, h2⟩ := widenLoop_spec next lo hi 4 (next hi - lo)
+  exact ⟨k, hk, e, h1, fun h => by rw [show widenSrc next lo hi = _ from e]; exact h2 h⟩
+
+/-- CONTRAST (the cap matters): with a `next` that never moves, the loop gives up after its four widenings and `hi` stays
+    outside — the shape of the failure at `MaxFloat64`, where `Nextafter(x, MaxValue) = x` -/
+theorem extent_widen_cap_contrast : ¬ ((5 : Int) < 0 + widenSrc (fun x => x) 0 5) := by decide
+
+/-- "Union [returns] the smallest rectangle covering both", on machine integers with all edges in `[-2^62, 2^62)`:
+    the union holds every point of both operands … -/
+theorem union_covers_int64 (a b : Rect Int64) (ha : a.Half) (hb : b.Half) (p : Point Int64)
+    (h : p.inRect a = true ∨ p.inRect b = true) : p.inRect (a.union b) = true := by
+  rw [inRect_toInt p _ (union_noWrap a b ha hb), union_toInt a b ha hb]
+  apply union_covers_int
+  rw [← inRect_toInt p a ha.noWrap, ← inRect_toInt p b hb.noWrap]; exact h
+
+/-- … and every (non-wrapping) rectangle that holds all machine points of both operands holds all machine points of
+    the union -/
+theorem union_smallest_int64 (a b c : Rect Int64) (ha : a.Half) (hb : b.Half) (hc : c.NoWrap)
+    (h : ∀ p : Point Int64, p.inRect a = true ∨ p.inRect b = true → p.inRect c = true) :
+    ∀ p : Point Int64, p.inRect (a.union b) = true → p.inRect c = true := by
+  intro p hp
+  rw [inRect_toInt p _ (union_noWrap a b ha hb), union_toInt a b ha hb] at hp
+  rw [inRect_toInt p c hc]
+  refine union_smallest_int a.toInt b.toInt c.toInt (fun q hq => ?_) p.toInt hp
+  rcases hq with hq | hq
+  · obtain ⟨p', rfl⟩ := point_representable q a ha.noWrap hq
+    rw [← inRect_toInt p' c hc]; exact h p' (Or.inl (by rw [inRect_toInt p' a ha.noWrap]; exact hq))
+  · obtain ⟨p', rfl⟩ := point_representable q b hb.noWrap hq
+    rw [← inRect_toInt p' c hc]; exact h p' (Or.inr (by rw [inRect_toInt p' b hb.noWrap]; exact hq))
 
 /-- exactly the call of the model driver (`Driver/C18.lean`: limits ±`math.MaxFloat64`, the guarded branch of `extent`
     stubbed): on every polygon of finite float64 coordinates it computes the closed-form bounds, which enclose every
